@@ -170,7 +170,15 @@ def check_transfer(ctx, tu, info):
             ok = ok1 and ok2
             detail += '; this <- other: %s; other <- saved this: %s' % (ok1, ok2)
         ctx.ob('C19.G', f, 'swap exchanges the generation counters together with the nodes', ok, detail=detail)
+        # std::swap(head, other.head), head.swap(other.head) or other.head.swap(head): the member and the other list's member of the same name
         heads = [w for w in ws if w['how'].startswith('arg:') and w['how'].endswith('swap') and w['path'] in (('this', '.head'), ('this', '.tail'))]
+        for w in ws:
+            if w['how'] == 'call:swap' and len(w['path']) == 2 and w['path'][1] in ('.head', '.tail'):
+                a = f.call_args(w['node'])
+                pa = path(f, a[0]) if len(a) == 1 else ()
+                both = {w['path'], pa}
+                if both == {('this', w['path'][1]), ('v:%s#%d' % (oname, other), w['path'][1])}:
+                    heads.append({'path': ('this', w['path'][1])})
         ctx.ob('C19.G', f, 'swap exchanges head and tail', len({w['path'] for w in heads}) == 2)
     for f in tu.fns_named('CallbackListBase::operator='):
         if f.d.get('assign') != 'move':
